@@ -55,6 +55,9 @@ type c05case struct {
 	truth  int   // bit i: condition i true
 	early  int   // -1: every branch leads to the join; j: branch j ends at its own end event before the join
 	order  int   // which permutation of the activated branches' finishing order (index into perms)
+	// premerge: the branches are merged by an exclusive gateway BEFORE the inclusive join, which therefore has ONE
+	// incoming sequence flow carrying every token of the activation — it is still the join of that fork
+	premerge bool
 }
 
 func c05cases(tier string) []c05case {
@@ -88,7 +91,10 @@ func c05cases(tier string) []c05case {
 						if tier != "thorough" && np > 2 && o%3 != (tr+d+c)%3 {
 							continue
 						}
-						cs = append(cs, c05case{c, d, tr, early, o})
+						cs = append(cs, c05case{c: c, defPos: d, truth: tr, early: early, order: o})
+						if c >= 2 && c <= 3 && early <= 0 && o < 2 {
+							cs = append(cs, c05case{c: c, defPos: d, truth: tr, early: early, order: o, premerge: true})
+						}
 					}
 				}
 			}
@@ -107,6 +113,11 @@ func c05run(out *rec.Out, c c05case, rng *rec.Rng, stats map[string]int) {
 	en := g.Add("endEvent", "end", "")
 	g.Connect(st, a, nil)
 	g.Connect(a, fork, nil)
+	into := join
+	if c.premerge {
+		into = g.Add("exclusiveGateway", "M", "")
+		g.Connect(into, join, nil)
+	}
 	nOut := c.c
 	if c.defPos >= 0 {
 		nOut++
@@ -128,13 +139,13 @@ func c05run(out *rec.Out, c c05case, rng *rec.Rng, stats map[string]int) {
 			e := g.Add("endEvent", fmt.Sprintf("end%d", j), "")
 			g.Connect(b, e, nil)
 		} else {
-			g.Connect(b, join, nil)
+			g.Connect(b, into, nil)
 		}
 	}
 	g.Connect(join, z, nil)
 	g.Connect(z, en, nil)
 
-	out.Begin("c05", c.c, c.defPos, c.truth, c.early, c.order)
+	out.Begin("c05", c.c, c.defPos, c.truth, c.early, c.order, rec.B(c.premerge))
 	defer out.End()
 	anyVars := map[string]any{}
 	for k, v := range vars {
